@@ -40,7 +40,7 @@ COMPONENTS = {"real": ["TunnelEndpoint (send, set_anonymity, set_tunnel_communit
 ASSUMPTIONS = ["while anonymity is switched off for a prefix its packets may use the raw socket (that is what the switch means)"]
 REACH = ["anon_send_no_circuit_queued", "anon_send_over_ready_circuit", "queue_overflow", "detached_drop", "plain_raw_ok",
          "circuit_closing_with_queue", "net_anon_delivered_via_exit", "net_hop_crashed", "wrong_circuit_not_used",
-         "second_endpoint_same_prefix", "net_blind_exit_circuit_ready", "service_with_statistics", "service_without_statistics"]
+         "second_endpoint_same_prefix", "net_blind_exit_circuit_ready", "service_with_statistics", "service_without_statistics", "anonymized_overlay_restarted"]
 
 ALPHA = "APRWCXDTNYQO"
 ANON_PREFIX = b"\x00\x02" + b"\xa1" * 20
@@ -80,8 +80,8 @@ def _net_case(seed: int) -> dict:
     ops = []
     for _ in range(rng.choice([6, 12, 30])):
         ops.append(rng.choices(["anon", "plain", "build", "wait", "remove", "crash_hop", "detach", "attach", "anon_off", "anon_on",
-                                "burst", "hops2", "hops1", "build_blind", "other_off", "other_send"],
-                               [30, 12, 8, 14, 8, 4, 4, 5, 3, 4, 3, 2, 3, 5, 3, 5])[0])
+                                "burst", "hops2", "hops1", "build_blind", "other_off", "other_send", "reload"],
+                               [30, 12, 8, 14, 8, 4, 4, 5, 3, 4, 3, 2, 3, 5, 3, 5, 4])[0])
     return {"scenario": "net", "seed": seed, "ops": ops,
             "knobs": {"lat_jit": rng.choice([0.0, 0.05]), "loss": rng.choice([0.0, 0.0, 0.1]), "timer_jitter": rng.choice([0.0, 0.001])}}
 
@@ -382,8 +382,12 @@ def run_net(c: Case, case: dict) -> dict:  # noqa: C901, PLR0915
 
         handed_net: dict = {}
         carried_net: dict = {}
+        removing: set = set()      # circuits this node has started to tear down (destroy sent, removal pending)
 
         def send_data(target_addr, circuit_id, dest, src, data):  # noqa: ANN001, ANN202
+            if data[:22] == aprefix and circuit_id in removing:
+                c.violate("right_circuit", "tunnelled_over_circuit_being_removed",
+                          f"anonymized packet handed to circuit {circuit_id}, which this node is tearing down (its destroy has been sent)")
             if data[:22] == aprefix:
                 carried_net[data] = carried_net.get(data, 0) + 1
                 if carried_net[data] > handed_net.get(data, 0):
@@ -452,6 +456,18 @@ def run_net(c: Case, case: dict) -> dict:  # noqa: C901, PLR0915
                         await asyncio.sleep(1.0)
                         if circ.state == "READY" and not circ.exit_flags:
                             world.probe("net_blind_exit_circuit_ready")
+            elif op == "reload":
+                # the application restarts the anonymized overlay: the replacement (same overlay id, same endpoint, anonymity asked for
+                # again) is created while the old instance is still unloading
+                old = anon
+                old_task = me.call(asyncio.ensure_future, old.unload())
+                me.overlays.remove(old)
+                anon = me.add(AnonOverlay, CommunitySettings(anonymize=True))
+                world.probe("anonymized_overlay_restarted")
+                await asyncio.sleep(0.01)
+                pkt = me.call(anon.create_introduction_request, target.address)
+                me.call(anon.endpoint.send, target.address, pkt)
+                await old_task
             elif op == "other_off":
                 other.endpoint.set_anonymity(aprefix, False)
             elif op == "other_send":
@@ -466,6 +482,7 @@ def run_net(c: Case, case: dict) -> dict:  # noqa: C901, PLR0915
                     cid = sorted(tc.circuits)[0]
                     if me.endpoint.send_queue:
                         world.probe("circuit_closing_with_queue")
+                    removing.add(cid)
                     me.call(tc.remove_circuit, cid, "c07", destroy=1)
             elif op == "crash_hop":
                 ready = [x for x in tc.circuits.values() if x.hops]
